@@ -76,6 +76,15 @@ fn sweep_forms(ev: Ev) -> &'static Vec<String> {
                         v.push(format!("{}{}-@", l, op));
                     }
                 }
+                // flat chains that start with the placeholder: a text-level fast path for "@ followed by terms" re-associates
+                for op1 in crate::vocab::infix(*ev) {
+                    for op2 in crate::vocab::infix(*ev) {
+                        let (a, b, c2) = if *ev == Ev::I64 { ("7", "3", "5") } else { ("0.2", "0.3", "4.35") };
+                        v.push(format!("@{}{}{}{}", op1, a, op2, b));
+                        v.push(format!("@{}{}{}{}{}{}", op1, a, op2, b, op1, c2));
+                        v.push(format!("{}{}@{}{}", a, op1, op2, b));
+                    }
+                }
                 for f in crate::vocab::funcs(*ev) {
                     if f.canon == "ilog" {
                         continue;
@@ -111,7 +120,7 @@ fn sweep_forms(ev: Ev) -> &'static Vec<String> {
 /// the boundary pool plus moderate values in every representation (exponents and counts that keep results in range)
 fn sweep_pool(ev: Ev) -> Vec<Val> {
     let mut v = ph_pool(ev);
-    let extra = [2.0, 3.0, 10.0, 33.0, 39.0, 40.0, 62.0, 63.0, 64.0, 0.5, 1.5, -3.0, -39.0];
+    let extra = [2.0, 3.0, 10.0, 33.0, 39.0, 40.0, 62.0, 63.0, 64.0, 0.5, 1.5, -3.0, -39.0, 0.1, 0.06, 19.99];
     for x in extra {
         match ev {
             Ev::F64 => v.push(Val::F(x)),
@@ -195,7 +204,7 @@ impl Prop for C14Prop {
         "C14"
     }
     fn rule(&self) -> String {
-        "Cases are (evaluator, expression E with 0..n occurrences of @, placeholder p from the boundary pool incl. NaN payloads, +-inf, -0.0, i64 extremes, Decimal values of distinct scales, Integer vs Float). Sub-checks: sweep (14 fixed forms plus L op @, @ op L, -@ op L for every infix operator, f(@), f(L,@), f(@,L) for every function, @ under every postfix form; the pool is extended by moderate values 2…64 in every representation; each form evaluated consecutively on one thread with every pool placeholder in both orders, every answer compared with the literal-substituted form); identity (@, (@), +@ return p identically: to_bits incl. NaN payload / variant / value+scale+sign) for every pool value (exhaustive); substitution (E evaluated with p equals E with every @ replaced by a bracketed literal expression that was first verified to evaluate to exactly p, evaluated with an unrelated placeholder); independence (E without @ gives the same outcome for every placeholder); reference evaluation with @ bound (exact sub-languages); twin re-evaluation (the same text immediately re-evaluated with a placeholder that compares equal or adjacent - other sign of zero, other Decimal scale, other Number variant, neighbouring double - and then with the original again); keyed-pairs (two consecutive calls (t1,p1),(t2,p2) where p2's bits are derived from p1's bits and the standard-library or FNV hashes of t1 and t2 by xor/add/sub, the coincidence a result cache keyed by hash(text) combined with the placeholder bits would need; the second answer must equal the same call made after an unrelated one). non-trivial = >=1 @ under >=1 operator and a placeholder different from the type's default; distinct by (evaluator,E,p).".into()
+        "Cases are (evaluator, expression E with 0..n occurrences of @, placeholder p from the boundary pool incl. NaN payloads, +-inf, -0.0, i64 extremes, Decimal values of distinct scales, Integer vs Float). Sub-checks: sweep (14 fixed forms plus L op @, @ op L, -@ op L for every infix operator, f(@), f(L,@), f(@,L) for every function, @ under every postfix form, flat chains @ op1 a op2 b for every operator pair; the pool is extended by moderate values 2…64 in every representation; each form evaluated consecutively on one thread with every pool placeholder in both orders, every answer compared with the literal-substituted form); identity (@, (@), +@ return p identically: to_bits incl. NaN payload / variant / value+scale+sign) for every pool value (exhaustive); substitution (E evaluated with p equals E with every @ replaced by a bracketed literal expression that was first verified to evaluate to exactly p, evaluated with an unrelated placeholder); independence (E without @ gives the same outcome for every placeholder); reference evaluation with @ bound (exact sub-languages); twin re-evaluation (the same text immediately re-evaluated with a placeholder that compares equal or adjacent - other sign of zero, other Decimal scale, other Number variant, neighbouring double - and then with the original again); keyed-pairs (two consecutive calls (t1,p1),(t2,p2) where p2's bits are derived from p1's bits and the standard-library or FNV hashes of t1 and t2 by xor/add/sub, the coincidence a result cache keyed by hash(text) combined with the placeholder bits would need; the second answer must equal the same call made after an unrelated one). non-trivial = >=1 @ under >=1 operator and a placeholder different from the type's default; distinct by (evaluator,E,p).".into()
     }
     fn subs(&self, tier: Tier) -> Vec<Sub> {
         let ident: u64 = Ev::ALL.iter().map(|ev| ph_pool(*ev).len() as u64 * 4).sum();
